@@ -20,12 +20,15 @@ func init() {
 
 // redialGoroutine: the closure (nested in FN_redial) that stores to the socket field.
 func (c *Ctx) redialGoroutine() *ssa.Function {
-	for _, u := range usesOfKind(c.P.uses(c.R.FSock), "store") {
-		if !isFreshAlloc(u.Base) && u.Fn.Parent() != nil && outermost(u.Fn) == c.R.FnRedial {
-			return u.Fn
+	var out *ssa.Function
+	for _, g := range c.redialSpawns() {
+		t := c.P.unbound(staticCallee(g))
+		if out != nil && out != t {
+			return nil
 		}
+		out = t
 	}
-	return nil
+	return out
 }
 
 func (c *Ctx) isFactoryCall(in ssa.Instruction) bool {
@@ -227,7 +230,7 @@ func runC05(c *Ctx) {
 	if c.need("R05.2", "redial goroutine", g != nil) {
 		construct := fmt.Sprintf("%s: back-off before every dial", fname(g))
 		var dials []ssa.Instruction
-		allInstrs(g, func(in ssa.Instruction) {
+		p.coneInstrs(g, func(in ssa.Instruction) {
 			if c.isFactoryCall(in) {
 				dials = append(dials, in)
 			}
@@ -235,45 +238,44 @@ func runC05(c *Ctx) {
 		if len(dials) == 0 {
 			c.bad("R05.2", construct, p.pos(g.Pos()), "the redial goroutine never dials")
 		}
+		isBackoffSleep := func(in ssa.Instruction) bool {
+			ci, ok := in.(*ssa.Call)
+			if !ok || calleeName(ci) != "time.Sleep" {
+				return false
+			}
+			nx, ok := ci.Common().Args[0].(*ssa.Call)
+			if !ok || len(nx.Common().Args) < 2 {
+				return false
+			}
+			fa, ok := nx.Common().Args[0].(*ssa.FieldAddr)
+			return ok && fieldOfAddr(fa) == r.FBackoff
+		}
 		for _, d := range dials {
-			if !inLoop(d.Block()) {
+			d := d
+			isD := func(in ssa.Instruction) bool { return in == d }
+			if reachFromUp(d, isD, nil) == nil {
 				c.bad("R05.2", construct, c.ipos(d), "the dial is not retried in a loop: a client whose first redial fails never heals")
 				continue
 			}
-			isBackoffSleep := func(in ssa.Instruction) bool {
-				ci, ok := in.(*ssa.Call)
-				if !ok || calleeName(ci) != "time.Sleep" {
-					return false
-				}
-				nx, ok := ci.Common().Args[0].(*ssa.Call)
-				if !ok || len(nx.Common().Args) < 2 {
-					return false
-				}
-				fa, ok := nx.Common().Args[0].(*ssa.FieldAddr)
-				return ok && fieldOfAddr(fa) == r.FBackoff
-			}
-			// from the previous dial (or entry) to this dial every path sleeps
-			bad := false
-			if wv := reachFromEntry(g, func(in ssa.Instruction) bool { return in == d }, isBackoffSleep); wv != nil {
-				bad = true
-			}
-			if wv := reachFrom(d, func(in ssa.Instruction) bool { return in == d }, isBackoffSleep); wv != nil {
-				bad = true
-			}
+			// from the previous dial (or the start of the goroutine) to this dial every path sleeps
+			bad := reachFromEntry(g, isD, isBackoffSleep) != nil || reachFromUp(d, isD, isBackoffSleep) != nil
 			if bad {
 				c.bad("R05.2", construct, c.ipos(d), "a dial can be reached without sleeping on the configured back-off first (e.g. the first attempt, or only some iterations): a flapping link or a down server is redialled in a busy loop")
 				continue
 			}
 			// attempt counter grows
 			grows := false
-			allInstrs(g, func(in ssa.Instruction) {
+			p.coneInstrs(g, func(in ssa.Instruction) {
 				if !isBackoffSleep(in) {
 					return
 				}
 				nx := in.(*ssa.Call).Common().Args[0].(*ssa.Call)
-				if ph, ok := nx.Common().Args[1].(*ssa.Phi); ok {
-					for _, e := range ph.Edges {
-						if bo, ok := e.(*ssa.BinOp); ok && bo.Op == token.ADD && (bo.X == ssa.Value(ph) || bo.Y == ssa.Value(ph)) {
+				for _, o := range c.origins(nx.Common().Args[1]) {
+					if bo, ok := o.Root.(*ssa.BinOp); ok && len(o.Fields) == 0 && bo.Op == token.ADD {
+						if k, ok := constInt(bo.Y); ok && k > 0 {
+							grows = true
+						}
+						if k, ok := constInt(bo.X); ok && k > 0 {
 							grows = true
 						}
 					}
@@ -285,45 +287,42 @@ func runC05(c *Ctx) {
 
 	// ---- R05.3
 	if g != nil {
-		var swap ssa.Instruction
-		allInstrs(g, func(in ssa.Instruction) {
-			if c.isSockStore(in) {
-				swap = in
+		var swaps []ssa.Instruction
+		p.coneInstrs(g, func(in ssa.Instruction) {
+			if c.isSwap(in) {
+				swaps = append(swaps, in)
 			}
 		})
-		if swap == nil {
+		if len(swaps) == 0 {
 			c.und("R05.3", "socket swap", "-", "no store to the socket field in the redial goroutine")
-		} else {
+		}
+		_, clears := c.flagEvents()
+		isReaderStart := func(in ssa.Instruction) bool {
+			gi, ok := in.(*ssa.Go)
+			return ok && w.Reader != nil && p.unbound(staticCallee(gi)) == w.Reader
+		}
+		for _, swap := range swaps {
 			type need struct {
 				name string
 				is   ipred
 				why  string
 			}
 			needs := []need{
-				{"connection-unusable flag cleared", func(in ssa.Instruction) bool {
-					st, ok := in.(*ssa.Store)
-					if !ok || !isNilConst(st.Val) {
-						return false
-					}
-					fa, ok := st.Addr.(*ssa.FieldAddr)
-					return ok && fieldOfAddr(fa) == r.FFlag
-				}, "after reconnecting the connection stays marked unusable: every later call fails immediately although the link is healthy"},
+				{"connection-unusable flag cleared", func(in ssa.Instruction) bool { return clears[in] },
+					"after reconnecting the connection stays marked unusable: every later call fails immediately although the link is healthy"},
 				{"keepalive re-armed on the new socket", func(in ssa.Instruction) bool {
 					ci, ok := in.(*ssa.Call)
 					if !ok {
 						return false
 					}
-					f := staticCallee(ci)
+					f := p.unbound(staticCallee(ci))
 					if f == nil || !p.allFns[f] {
 						return false
 					}
 					pong, ping := c.installsHandlers(f, map[*ssa.Function]bool{})
 					return pong && ping && c.startsPinger(f, map[*ssa.Function]bool{})
 				}, "after reconnecting, pong/ping handlers and the ping sender are not (all) set up on the new socket: a healthy but idle link is dropped at every timeout, or silent peers are no longer detected"},
-				{"socket reader restarted", func(in ssa.Instruction) bool {
-					gi, ok := in.(*ssa.Go)
-					return ok && w.Reader != nil && p.unbound(staticCallee(gi)) == w.Reader
-				}, "after reconnecting nobody reads from the new socket: every call on the healed link hangs"},
+				{"socket reader restarted", isReaderStart, "after reconnecting nobody reads from the new socket: every call on the healed link hangs"},
 			}
 			for _, nd := range needs {
 				construct := fmt.Sprintf("%s: after the socket swap: %s", fname(g), nd.name)
@@ -333,15 +332,14 @@ func runC05(c *Ctx) {
 					c.ok("R05.3", construct, c.ipos(swap), "on every path to the end of the goroutine")
 				}
 			}
-			// the reader must be restarted only after the swap (it reads c.conn)
-			allInstrs(g, func(in ssa.Instruction) {
-				gi, ok := in.(*ssa.Go)
-				if ok && w.Reader != nil && p.unbound(staticCallee(gi)) == w.Reader {
-					c.check(mustPrecede(g, func(x ssa.Instruction) bool { return x == swap }, in), "R05.3", fmt.Sprintf("%s: reader restarted on the new socket", fname(g)), c.ipos(in),
-						"after the swap", "the reader is restarted before the new socket is installed: it reads the dead socket and immediately signals another loss")
-				}
-			})
 		}
+		// the reader must be restarted only after the swap (it reads the socket field)
+		p.coneInstrs(g, func(in ssa.Instruction) {
+			if isReaderStart(in) {
+				c.check(mustPrecedeIP(in, c.isSwap, 0), "R05.3", fmt.Sprintf("%s: reader restarted on the new socket", fname(g)), c.ipos(in),
+					"after the swap", "the reader is restarted before the new socket is installed: it reads the dead socket and immediately signals another loss")
+			}
+		})
 	}
 
 	// ---- R05.4
